@@ -1683,9 +1683,9 @@ func (h *vc17H) monitors(g vc17Group, chunks []llm.CompletionResponse, results m
 				if lastFinish != nil {
 					got = *lastFinish
 				}
-				// not evaluated where the runner protocol is left: done_reason "" (connection closed: nobody
-				// is listening) and a done chunk that itself carries content (the runner's final message is empty)
-				if got != wantFinish && na.last.reason != "" && !(g.doneB && s.tools) {
+				// not evaluated for done_reason "" (connection closed: nobody is listening).  A tool call that arrives in
+				// the done message itself is evaluated since round 7: finding F17f (finish_reason stop vs tool_calls)
+				if got != wantFinish && na.last.reason != "" {
 					fail("openai-finish", s, fmt.Sprintf("finish_reason=%q want %q", got, wantFinish))
 				}
 				if s.usage && (usages != 1 || usage == nil || *usage != [3]int{na.last.pec, na.last.ec, na.last.pec + na.last.ec}) {
@@ -2219,7 +2219,41 @@ func TestVerifC17Variant(t *testing.T) {
 	long := `"` + strings.Repeat("0123456789abcdef", (h.climit+1000)/16+1)[:h.climit+1000] + `"`
 	res = run(vc17Group{pieces: []string{long}, end: "ok", pec: 1, ec: 1}, vc17Shape{ep: "cgen", stream: 0, model: vc17Plain})
 	put("clientFixed", res.cerr != "")
+	// F17f: a tool call delivered by the done message itself ends the OpenAI stream with tool_calls
+	res = run(vc17Group{pieces: []string{a}, end: "ok", doneB: true, pec: 1, ec: 1}, vc17Shape{ep: "oachat", stream: 1, tools: true, model: vc17Tools})
+	lastFinish := ""
+	for _, e := range res.evs {
+		if e.tag == "k" && e.finish != nil {
+			lastFinish = *e.finish
+		}
+	}
+	put("oaFinish", lastFinish == "tool_calls")
 	if err := os.WriteFile(zzverif.OutDir()+"/variant.txt", []byte(out.String()), 0o644); err != nil {
 		t.Fatal(err)
+	}
+}
+
+// TestVerifC17F17f: plain replay of finding F17f on the real router (no model involved): the same runner output —
+// one chunk that carries the whole tool call AND done — answered by /v1/chat/completions with stream:true and with
+// stream:false.  Prints both finish_reason values; fails when they differ.
+func TestVerifC17F17f(t *testing.T) {
+	h := vc17Setup(t)
+	defer h.out.Close()
+	h.run.chunks = []llm.CompletionResponse{{Content: `{"name":"get_weather","arguments":{"city":"Paris"}}`, Done: true, DoneReason: llm.DoneReasonStop, PromptEvalCount: 5, EvalCount: 7}}
+	g := vc17Group{end: "ok"}
+	finish := func(stream int) string {
+		res := h.request(vc17Shape{ep: "oachat", stream: stream, tools: true, model: vc17Tools}, g)
+		last := "<none>"
+		for _, e := range res.evs {
+			if (e.tag == "k" || e.tag == "K") && e.finish != nil {
+				last = *e.finish
+			}
+		}
+		return last
+	}
+	s, o := finish(1), finish(0)
+	t.Logf("finish_reason streamed=%q non-streamed=%q", s, o)
+	if s != o {
+		t.Fatalf("F17f: streamed /v1/chat/completions ends with finish_reason %q, the non-streamed reply for the same runner output says %q", s, o)
 	}
 }
